@@ -57,6 +57,7 @@ _logger = logging.getLogger(__name__)
 _hash_key_body_sig = HK("body_sig")
 _hash_key_fun_input = HK("function_input_hash")
 _hash_key_fun_inter = HK("function_inter_hash")
+_hash_key_fun_deps = HK("function_deps_hash")
 
 
 # The name of a local function var
@@ -319,8 +320,31 @@ class IntroVisitor(ast.NodeVisitor):
         # The name of the current function is not part of the names already seen: a function that
         # refers to itself by name (for example to pass itself to another function) is recursive.
         self._store_names: Set[LocalVar] = set()
+        self._fun_path = fun_path
         self.inters: List[FunctionInteractions] = []
         self.load_paths: List[DDSPath] = []
+        # The signature found at each of the loaded paths, when it was loaded
+        self.load_sigs: "OrderedDict[DDSPath, PyHash]" = OrderedDict()
+
+    def _add_load(self, path: DDSPath) -> None:
+        # The path must have been produced before this point: either it is in the store, or it
+        # has been produced earlier in this evaluation.
+        key = self._gctx.resolved_references.get(path)
+        if key is None:
+            raise DDSException(
+                f"The function {self._fun_path} loads the path {path}, which is produced later in the same "
+                f"evaluation. A path must be produced (with dds.keep or with a data function) before "
+                f"it is loaded. Call stack: {self._call_stack}",
+                DDSErrorCode.LOAD_BEFORE_STORE,
+            )
+        self.load_paths.append(path)
+        self.load_sigs[path] = key
+
+    def _deps_sig(self) -> Optional[PyHash]:
+        # The calls that follow a load may use the loaded value: it is part of their context.
+        return dds_hash_commut(
+            [(HK(f"dep_{p}"), sig) for (p, sig) in self.load_sigs.items()]
+        )
 
     def visit_Call(self, node: ast.Call) -> Any:
         # _logger.debug(f"visit_Call: {node} {dir(node)} {pformat(node)}")
@@ -350,12 +374,13 @@ class IntroVisitor(ast.NodeVisitor):
             function_inters_sig,
             self._function_var_names,
             self._call_stack,
+            function_deps_hash=self._deps_sig(),
         )
         if fi_or_p is not None and isinstance(fi_or_p, FunctionInteractions):
             self.inters.append(fi_or_p)
         # str is the underlying type of a DDSPath
         if fi_or_p is not None and isinstance(fi_or_p, str):
-            self.load_paths.append(fi_or_p)
+            self._add_load(DDSPath(fi_or_p))
         self.generic_visit(node)
 
     def visit_Assign(self, node: ast.Assign) -> Any:
@@ -409,12 +434,13 @@ class IntroVisitor(ast.NodeVisitor):
                     function_inters_sig,
                     self._function_var_names,
                     self._call_stack,
+                    function_deps_hash=self._deps_sig(),
                 )
                 if fi_or_p is not None and isinstance(fi_or_p, FunctionInteractions):
                     self.inters.append(fi_or_p)
                 # str is the underlying type of a DDSPath
                 if fi_or_p is not None and isinstance(fi_or_p, str):
-                    self.load_paths.append(fi_or_p)
+                    self._add_load(DDSPath(fi_or_p))
 
         self.generic_visit(node)
 
@@ -708,18 +734,9 @@ class InspectFunction(object):
         # Remove duplicates but keep the order in the list of paths:
         indirect_dep = _no_dups(calls_v.load_paths)
 
-        def fetch(dep: DDSPath) -> PyHash:
-            key = gctx.resolved_references.get(dep)
-            if key is None:
-                raise DDSException(
-                    f"The function {fun_path} loads the path {dep}, which is produced later in the same "
-                    f"evaluation. A path must be produced (with dds.keep or with a data function) before "
-                    f"it is loaded. Call stack: {call_stack}",
-                    DDSErrorCode.LOAD_BEFORE_STORE,
-                )
-            return key
-
-        indirect_deps_sigs = dict([(dep, fetch(dep)) for dep in indirect_dep])
+        indirect_deps_sigs = dict(
+            [(dep, calls_v.load_sigs[dep]) for dep in indirect_dep]
+        )
 
         # Look at the annotations to see if there is a reference to a data_function
         if isinstance(node, ast.FunctionDef):
@@ -803,6 +820,7 @@ class InspectFunction(object):
         var_names: Set[LocalVar],
         call_stack: List[CanonicalPath],
         debug: bool = False,
+        function_deps_hash: Optional[PyHash] = None,
     ) -> Union[FunctionInteractions, DDSPath, None]:
         # _logger.debug(f"Inspect call:\n %s", pformat(node))
 
@@ -871,6 +889,11 @@ class InspectFunction(object):
             + (
                 [(_hash_key_fun_inter, function_inter_hash)]
                 if function_inter_hash is not None
+                else []
+            )
+            + (
+                [(_hash_key_fun_deps, function_deps_hash)]
+                if function_deps_hash is not None
                 else []
             )
         )
